@@ -6,11 +6,12 @@ from .utils import LineInfo
 class CToken(Token):
     """C token (including optional preceeding spaces)"""
 
-    def __init__(self, typ, val, space, first, loc):
+    def __init__(self, typ, val, space, first, loc, hideset=frozenset()):
         super().__init__(typ, val, loc)
         self.space = space
         self.first = first
-        # self.hideset = set()
+        # Names of the macros which may no longer be expanded in this token:
+        self.hideset = hideset
 
     def __repr__(self):
         return (
@@ -21,13 +22,15 @@ class CToken(Token):
     def __str__(self):
         return self.space + self.val
 
-    def copy(self, space=None, first=None):
+    def copy(self, space=None, first=None, hideset=None):
         """Return a new token which is a mildly modified copy"""
         if space is None:
             space = self.space
         if first is None:
             first = self.first
-        return CToken(self.typ, self.val, space, first, self.loc)
+        if hideset is None:
+            hideset = self.hideset
+        return CToken(self.typ, self.val, space, first, self.loc, hideset)
 
 
 class TokenType(enum.Enum):
